@@ -182,12 +182,14 @@ def executeOld {D Q} (eng : D → Q → Except DuckExc D) (w : World D) (s : Stm
 inductive CurOp (Q : Type)
   | execute (s : Stmt Q)
   | other                    -- fetchone/fetchmany/fetchall, rowcount, description (runs on a throw-away cursor)
+  | close                    -- connection.close()
 
 /-- cursor.sqlstate along a sequence of cursor operations on one connection -/
 def runOps {D Q} (eng : D → Q → Except DuckExc D) (w : World D) (st : Option String) : List (CurOp Q) → World D × Option String
   | [] => (w, st)
   | .execute s :: ops => let r := execute eng w s; runOps eng r.world r.sqlstate ops
   | .other :: ops => runOps eng w st ops
+  | .close :: ops => runOps eng { w with closed := true } st ops
 
 /-! ### which exception class DuckDB raises for which cause (modelled engine table, DESIGN Appendix A.1) -/
 
